@@ -9,13 +9,15 @@
 //!   tree  = ( node* );  node = ( N0 ns name ( attr* ) ( node* ) ) | ( N1 text ) | ( N2 )
 //!   attr  = ( prefix-enc ns local value ), in the BTreeSet's iteration order; prefix-enc is
 //!           empty for `None` and 0x01 ++ prefix for `Some(prefix)` (order-preserving).
-//! outcome = ok ( cleaned-tree reparsed-output-tree ) | panic
+//! outcome = ok ( cleaned-tree reparsed-output-tree ( entry-points-agree ) ) | panic
 //!   cleaned-tree: `Html::parse(html)`, `sanitize_with(cfg)`, dumped through the public DOM API;
 //!   reparsed-output-tree: `Html::parse(html.to_string())` of the cleaned document — what an HTML
-//!   parser sees; html5ever is not modelled, so the Coq side echoes it and evaluates the spec on it.
+//!   parser sees; html5ever is not modelled, so the Coq side echoes it and evaluates the spec on it;
+//!   entry-points-agree: for a preset, `sanitize_html` / `remove_html_reply_fallback` / `Html::sanitize`
+//!   return the same string as parse + sanitize_with + to_string (echoed, required by the spec check).
 use ruma_html::{
-    ElementAttributesReplacement, ElementAttributesSchemes, Html, ListBehavior, NameReplacement,
-    NodeData, NodeRef, PropertiesNames, SanitizerConfig,
+    ElementAttributesReplacement, ElementAttributesSchemes, Html, HtmlSanitizerMode, ListBehavior,
+    NameReplacement, NodeData, NodeRef, PropertiesNames, RemoveReplyFallback, SanitizerConfig,
 };
 
 use crate::{
@@ -97,6 +99,23 @@ impl Cfg {
             }
         }
         self
+    }
+
+    /// `Some((mode, reply))` when no list option and no depth is set.
+    pub fn preset_kind(&self) -> Option<(u8, bool)> {
+        let plain = self.replace_elems.is_none()
+            && self.remove_elems.is_none()
+            && self.ignore_elems.is_none()
+            && self.allow_elems.is_none()
+            && self.replace_attrs.is_none()
+            && self.remove_attrs.is_none()
+            && self.allow_attrs.is_none()
+            && self.deny_schemes.is_none()
+            && self.allow_schemes.is_none()
+            && self.remove_classes.is_none()
+            && self.allow_classes.is_none()
+            && self.max_depth.is_none();
+        plain.then_some((self.mode, self.reply))
     }
 
     /// Through the public builder only.
@@ -313,8 +332,31 @@ pub fn run_case(cfg: &Cfg, html: &str) -> Sx {
         let cleaned = tree_sx(&doc);
         let out = doc.to_string();
         let re = Html::parse(&out);
-        Sx::ok(Sx::L(vec![cleaned, tree_sx(&re)]))
+        // the string entry points are thin wrappers: same result as parse + sanitize_with + to_string
+        let entry_ok = match cfg.preset_kind() {
+            Some((1, reply)) => ruma_html::sanitize_html(&html, HtmlSanitizerMode::Strict, rrf(reply)) == out,
+            Some((2, reply)) => {
+                let a = ruma_html::sanitize_html(&html, HtmlSanitizerMode::Compat, rrf(reply)) == out;
+                let b = !reply || {
+                    let d = Html::parse(&html);
+                    d.sanitize();
+                    d.to_string() == out
+                };
+                a && b
+            }
+            Some((_, true)) => ruma_html::remove_html_reply_fallback(&html) == out,
+            _ => true,
+        };
+        Sx::ok(Sx::L(vec![cleaned, tree_sx(&re), Sx::L(vec![Sx::b(entry_ok)])]))
     })
+}
+
+fn rrf(reply: bool) -> RemoveReplyFallback {
+    if reply {
+        RemoveReplyFallback::Yes
+    } else {
+        RemoveReplyFallback::No
+    }
 }
 
 pub fn dump(_dir: &str) {}
@@ -713,6 +755,96 @@ pub fn single_option_cfgs() -> Vec<Cfg> {
     v
 }
 
+/// Markup whose parse tree is not what the text suggests (foster parenting, adoption agency,
+/// raw-text elements, foreign content, integration points, attribute breakouts, known
+/// mutation-XSS shapes): what an HTML parser makes of the sanitized output is part of C14.
+pub const PARSER_STRESS: &[&str] = &[
+    "<svg></p><style><a id=\"</style><img src=1 onerror=alert(1)>\">",
+    "<math><mtext><table><mglyph><style><!--</style><img title=\"--&gt;&lt;img src=1 onerror=alert(1)&gt;\">",
+    "<form><math><mtext></form><form><mglyph><style></math><img src onerror=alert(1)>",
+    "<noscript><p title=\"</noscript><img src=x onerror=alert(1)>\">",
+    "<select><template><style><!--</style><a rel=\"--></style></template></select><img id=x src onerror=alert(1)>\">",
+    "<svg><style><img src=x onerror=alert(1)></style></svg>",
+    "<math><annotation-xml encoding=\"text/html\"><style><img src=x onerror=alert(1)></style></annotation-xml></math>",
+    "<math><annotation-xml encoding=\"text/html\"><a href=\"javascript:alert(1)\">x</a><img src=\"http://evil\"></annotation-xml></math>",
+    "<svg><foreignObject><a href=\"javascript:alert(1)\" data-x=\"1\">x</a></foreignObject></svg>",
+    "<svg><desc><img alt=\"a\" src=\"http://evil\"><b>x</b></desc></svg>",
+    "<table><td><a href=\"https://a\">x</td></table>",
+    "<table><a href=https://a>foster</a><tr><td>x</table>",
+    "<table><tr><td><svg><tr><td>x</td></tr></svg></td></tr></table>",
+    "<svg><tr><td>x</td></tr><caption>c</caption><a href=\"https://a\">l</a></svg>",
+    "<a href=\"https://a\"><div><a href=\"https://b\">y</a></div></a>",
+    "<a href=\"https://a\"><svg><a href=\"https://b\">y</a></svg></a>",
+    "<b><p>x</b>y</p>",
+    "<p><b><i>x</p>y</i></b>",
+    "<b><b><b><b><p>x</p></b></b></b></b>",
+    "<xmp><img src=x onerror=alert(1)></xmp>",
+    "<plaintext><b>x</b>",
+    "<textarea><img src=x onerror=alert(1)></textarea>",
+    "<title><img src=x onerror=alert(1)></title>",
+    "<iframe><img src=x onerror=alert(1)></iframe>",
+    "<noembed><img src=x onerror=alert(1)></noembed>",
+    "<noframes><img src=x onerror=alert(1)></noframes>",
+    "<script><img src=x onerror=alert(1)></script>",
+    "<style><img src=x onerror=alert(1)></style>",
+    "<style>&lt;img src=x&gt;</style><xmp>&lt;b&gt;</xmp>",
+    "<img src=\"mxc://a/b\" alt=\"`><img src=x onerror=alert(1)>\">",
+    "<a href=\"https://a\" title=\"&quot;><img src=x onerror=1>\">x</a>",
+    "<a href=\"https://a&quot; onmouseover=&quot;alert(1)\">x</a>",
+    "<details open ontoggle=alert(1)><summary>x</summary></details>",
+    "<svg><a xlink:href=\"javascript:alert(1)\"><text>x</text></a></svg>",
+    "<svg><a xlink:href=\"https://a\" xlink:title=\"t\" xml:lang=\"en\" target=\"_blank\">x</a></svg>",
+    "<svg><use href=\"data:image/svg+xml,x\"/></svg>",
+    "<math href=\"javascript:alert(1)\">x</math>",
+    "<math><mi xlink:href=\"javascript:alert(1)\">x</mi></math>",
+    "<img src=\"mxc://a/b\" srcset=\"http://evil 1x\">",
+    "<a href=\"https://a\" ping=\"http://evil\">x</a>",
+    "<span style=\"background:url(javascript:alert(1))\" data-mx-color=\"red\">x</span>",
+    "<font color=\"red\" data-mx-color=\"blue\">x</font>",
+    "<font color=\"red\" data-mx-color=\"red\">x</font>",
+    "<font data-mx-color=\"a\" color=\"b\" data-mx-bg-color=\"c\" size=\"3\">x</font>",
+    "<svg><font color=\"red\">x</font></svg>",
+    "<svg><font>x<strike>y</strike></font></svg>",
+    "<div data-mx-maths=\"x\"><svg><div>y</div></svg></div>",
+    "<template><b>x</b><script>1</script></template>",
+    "<table><template><tr><td>x</td></tr></template></table>",
+    "<br></br><p></p></p>",
+    "<li><ul><li><ol start=1 type=a><li>x",
+    "<a href=\"https://a&#0;b\">x</a>",
+    "<a href=\"&#x6a;avascript:alert(1)\">x</a>",
+    "<a href=\"java&#x0A;script:alert(1)\" data-x=\"1\">x</a>",
+    "<!--><img src=x onerror=1>-->",
+    "<!--!><img src=x>",
+    "<![CDATA[<img src=x>]]>",
+    "<svg><![CDATA[<img src=x onerror=1>]]></svg>",
+    "<h1><h2>x</h1>y</h2>",
+    "<caption>c<table><caption>d</caption></table></caption>",
+    "<code class=\"language-x\"><code class=\"y\">z</code></code>",
+    "<pre>\n\nx</pre><textarea>\nx</textarea>",
+    "<mx-reply><blockquote><a href=\"https://matrix.to/#/!r:s/$e\">In reply to</a> x</blockquote></mx-reply>y",
+    "<mx-reply><mx-reply>x</mx-reply>y</mx-reply>z",
+    "<x-foo><mx-reply>x</mx-reply>y</x-foo>",
+    "<svg><mx-reply>x</mx-reply></svg>",
+    "<span data-mx-spoiler>s</span><span data-mx-spoiler=\"r\" data-mx-maths=\"\\pi\">s</span>",
+    "<ol start=\"-1\" reversed><li value=\"3\">x</ol>",
+    "<img src=\"mxc://a/b\" width=\"1\" height=\"2\" alt=\"a\" title=\"t\" loading=\"lazy\">",
+    "<p>a<br>b<hr>c<img src=\"mxc://a/b\">d</p>",
+    "<frameset><frame src=x></frameset>",
+    "<body onload=alert(1)><b>x</b></body>",
+    "<html><head><title>t</title></head><body><p>x</p></body></html>",
+    "</div><b>x</b>",
+    "<svg><b>x</b></svg><math><i>y</i></math>",
+    "<svg><p>x</p><a href=\"https://a\">l</a></svg>",
+    "<math><mtext><a href=\"javascript:x\" target=\"_blank\">l</a></mtext></math>",
+    "<select><option><b>x</b></option></select>",
+    "<button><button>x</button></button>",
+    "<nobr><nobr>x</nobr></nobr>",
+    "<marquee><table><marquee>x",
+    "<a><table><a>",
+    "<i><table><tr><td><i>x",
+    "<p><table><p>x",
+];
+
 /// Documents that exercise one element with every subset of its attribute pool.
 pub fn systematic_docs() -> Vec<String> {
     let mut docs = vec![];
@@ -756,6 +888,9 @@ pub fn systematic_docs() -> Vec<String> {
     for el in ALLOWED.iter().chain(DEPRECATED).chain(FORBIDDEN).chain(FOREIGN) {
         docs.push(format!("a<{el} id=\"1\">b<b>c</b><x-foo>d<i>e</i></x-foo></{el}>f"));
     }
+    for d in PARSER_STRESS {
+        docs.push((*d).to_owned());
+    }
     for n in [0usize, 1, 2, 3, 4, 98, 99, 100, 101, 102, 150, 300] {
         docs.push(format!("{}x{}", "<div>".repeat(n), "</div>".repeat(n)));
         docs.push(format!("{}<b>x</b>{}", "<x-foo>".repeat(n), "</x-foo>".repeat(n)));
@@ -783,6 +918,34 @@ pub fn run_streams(tier: &str, seed: u64, mut emit: impl FnMut(&str, &Cfg, &str)
             emit("systematic-single-option", c, &docs[(i * 131 + k * 17) % docs.len()]);
         }
     }
+    // systematic: two `class` attributes on one element (through an attribute replacement), so that the
+    // value rewriting of the class filter meets the set semantics of the attribute store
+    for mode in [1u8, 2, 0] {
+        for classes in [&[("span", &["a*", "b"][..])][..], &[("span", &["*"][..])][..], &[("span", &["a"][..]), ("code", &["language-*", "a"][..])][..]] {
+            for variant in 0..4 {
+                let mut c = Cfg {
+                    mode,
+                    replace_attrs: Some((false, vec![("span", vec![("style", "class")]), ("code", vec![("id", "class")])])),
+                    allow_attrs: Some((false, vec![("span", vec!["class"])])),
+                    ..Default::default()
+                };
+                match variant {
+                    0 => c.allow_classes = Some((false, props_of(classes))),
+                    1 => c.allow_classes = Some((true, props_of(classes))),
+                    2 => c.remove_classes = Some(props_of(classes)),
+                    _ => {
+                        c.remove_classes = Some(props_of(classes));
+                        c.allow_classes = Some((false, props_of(&[("span", &["*b*", "a"][..]), ("code", &["*"][..])])));
+                    }
+                }
+                for x in ["a", "b", "a b", "ab a", "c", "", " a", "language-x a", "a a"] {
+                    for y in ["a", "b", "b a", "c a", "language-y", "a  a"] {
+                        emit("systematic-class-sets", &c, &format!("<span style=\"{x}\" class=\"{y}\">t</span><code id=\"{x}\" class=\"{y}\">u</code>"));
+                    }
+                }
+            }
+        }
+    }
     // random structured documents
     let n = if thorough { 150_000 } else { 4_000 };
     for _ in 0..n {
@@ -805,10 +968,24 @@ pub fn run_streams(tier: &str, seed: u64, mut emit: impl FnMut(&str, &Cfg, &str)
         let c = if r.chance(1, 2) { r.pick(&presets).clone() } else { gen_cfg(&mut r) };
         emit("nesting", &c, &d);
     }
-    // malformed: byte-level mutants of generated documents
+    // parser stress: pairs of the parser-stress documents, side by side and nested
+    let n = if thorough { 30_000 } else { 800 };
+    for _ in 0..n {
+        let (a, b) = (*r.pick(PARSER_STRESS), *r.pick(PARSER_STRESS));
+        let d = match r.below(4) {
+            0 => format!("{a}{b}"),
+            1 => format!("<div>{a}</div>{b}"),
+            2 => format!("<x-foo>{a}{b}"),
+            _ => format!("<table><tr><td>{a}</td></tr></table><svg>{b}"),
+        };
+        let c = if r.chance(3, 4) { r.pick(&presets).clone() } else { gen_cfg(&mut r) };
+        emit("parser-stress", &c, &d);
+    }
+    // malformed: character-level mutants of generated and parser-stress documents
     let n = if thorough { 40_000 } else { 1_500 };
     for _ in 0..n {
-        let mut d: Vec<char> = gen_doc(&mut r, false).chars().collect();
+        let base = if r.chance(1, 3) { (*r.pick(PARSER_STRESS)).to_owned() } else { gen_doc(&mut r, false) };
+        let mut d: Vec<char> = base.chars().collect();
         for _ in 0..1 + r.below(3) {
             if d.is_empty() {
                 break;
